@@ -30,12 +30,19 @@ def op_fn(prog, op):
 
 class Ctx:
     """symbolic pre-state + arguments for one mutator job"""
-    def __init__(self, prog, op, N, fix_t=None, fix_x=None, max_steps=None, strict_removed=True):
+    def __init__(self, prog, op, N, fix_t=None, fix_x=None, max_steps=None, strict_removed=True, embedded=False):
         self.prog, self.op, self.N = prog, op, N
+        self.embedded = embedded
         self.eng = Engine(prog, max_steps=max_steps or (4000 + 3000 * N))
         self.A = SymArena(N)
         for c in self.A.inv(strict_removed=strict_removed): self.eng.solver.add(c)
         A = self.A
+        if embedded:
+            # the N modelled slots sit at symbolic positions of a longer arena whose other slots are live nodes no link leads to
+            import iters
+            for c in A.embed(iters.EMBED_MAXLEN): self.eng.solver.add(c)
+            self.eng.havoc_elem = A.havoc_node
+            self.prefer = [z3.ULT(A.at[-1], 200), z3.ULE(A.vlen, A.at[-1] + 2)]
         self.t = z3.BitVec('t', 64) if fix_t is None else BV64(fix_t)
         self.x = z3.BitVec('x', 64) if fix_x is None else BV64(fix_x)
         self.tg = z3.BitVec('tg', 16); self.xg = z3.BitVec('xg', 16)
@@ -54,11 +61,11 @@ class Ctx:
             # itself reports for the removed node (get_node_id / iter on a removed node carry the slot's current, negative stamp)
             if self.uses_t: s.add(z3.Implies(z3.Not(self.t_live), z3.Or(z3.And(self.tg >= 0, self.tg <= -(st_t + 1)), self.tg == st_t)))
             if self.uses_x: s.add(z3.Implies(z3.Not(self.x_live), z3.Or(z3.And(self.xg >= 0, self.xg <= -(st_x + 1)), self.xg == st_x)))
-            self.id_t = mk_id(self.t, z3.If(self.t_live, st_t, self.tg))
-            self.id_x = mk_id(self.x, z3.If(self.x_live, st_x, self.xg))
+            self.id_t = mk_id(A.to_real(self.t), z3.If(self.t_live, st_t, self.tg))
+            self.id_x = mk_id(A.to_real(self.x), z3.If(self.x_live, st_x, self.xg))
         if op in UNARY: s.add(self.x_live)       # valid call: the node is live
         self.st = State()
-        self.acell = self.st.new_cell(A.value())
+        self.acell = self.st.new_cell(A.value(embedded=True, free_inside=True) if embedded else A.value())
         self.pre = View(A.value())
         f = op_fn(prog, op)
         aref = Ref(self.acell, ())
@@ -117,7 +124,7 @@ def case_from_outcome(ctx, o):
     c.t_live, c.x_live, c.newdata = ctx.t_live, ctx.x_live, ctx.newdata
     c.kind, rv = result_class(ctx.op, o)
     c.msg = o.msg or ''
-    c.post = View(o.state.store[ctx.acell]) if c.kind not in ('bound',) else None
+    c.post = View(o.state.store[ctx.acell], unmap=(ctx.A if getattr(ctx, 'embedded', False) else None)) if c.kind not in ('bound',) else None
     c.is_err = c.err_disc = c.ridx = c.rst = None
     if c.kind == 'result':
         c.is_err = zb(S(rv.d.v, 'isize')) == 1
@@ -420,7 +427,7 @@ def run_mutator_job(prog, job):
     t0 = time.time()
     op, N = job['op'], job['N']
     prefixes = tuple(p + '.' for p in job['props'])
-    ctx = Ctx(prog, op, N, job.get('fix_t'), job.get('fix_x'))
+    ctx = Ctx(prog, op, N, job.get('fix_t'), job.get('fix_x'), embedded=job.get('embedded', False))
     res = {'job': job, 'paths': 0, 'steps': 0, 'obligations': 0, 'discharged': 0, 'assert_queries': 0, 'violations': [],
            'outcomes': {}, 'coverage': {}, 'samples': [], 'nontrivial': 0, 'smt2': [], 'lemma_violations': [], 'lemma_queries': 0}
     if not ctx.pre_sat():
@@ -472,6 +479,7 @@ def run_mutator_job(prog, job):
                 res['discharged'] += len(remaining)
                 break
             m = sv.model()
+            if getattr(ctx, 'prefer', None) and eng.check(pc + [neg] + ctx.prefer) == z3.sat: m = sv.model()
             failed = [(n, f) for (n, f) in remaining if z3.is_false(m.eval(f, model_completion=True))]
             if not failed:
                 res['unknown'] = 'model does not falsify any obligation'
